@@ -5,8 +5,10 @@ package pc17
 //	"The registry refuses to register a plugin whose request or response type has a secret-looking field name without
 //	 an explicit secure or ignore tag."
 //
-// Types are generated from two unambiguous lexicons (secret-looking / benign); borderline names are never generated, so
-// the oracle does not depend on where the package draws the line. Nesting is by value and by pointer (nil pointers
+// Types are generated from two lexicons. Only the secret-looking one carries a verdict (one direction, as in the
+// statement): a type with an untagged name of that lexicon must be refused. Names of the benign lexicon are expected to
+// pass, but their refusal is only counted (with a floor on accepted compliant types), because the statement does not
+// say where the package draws the line on that side. Nesting is by value and by pointer (nil pointers
 // included: Request() / Response() return *empty* objects).
 //
 // A case is ONE *registry.Register and a SEQUENCE of 2-5 Register calls. Nested struct types are drawn from a small
@@ -668,11 +670,15 @@ func checkRegistry(rc *RegCase, res *vprop.Result) {
 			f.fail("C17/registry-accepted-untagged-secret:"+cls, "Register call #%d (plugin %q) accepted a plugin although field %s is secret-looking and has neither coerce:\"secure\" nor coerce:\"ignore\" (request %T, response %T)", i, c.name, offender, plug.req, plug.resp)
 			return
 		case !refuse && err != nil:
-			// converse ("refuses ... whose type has ..." read as exactly those): every secret-looking field is tagged
-			// and nothing else about the plugin is wrong (name not registered before, valid retry policy), so the
-			// refusal has no ground.
-			f.fail("C17/registry-refused-compliant-type", "Register call #%d (plugin %q) refused a plugin whose request/response types have no untagged secret-looking field: %v (request %T, response %T)", i, c.name, err, plug.req, plug.resp)
-			return
+			// The statement is one-directional ("refuses ... a plugin whose ... type has a secret-looking field name
+			// without ... tag"): a registry that also refuses a name of the benign lexicon (a wider pattern; the remedy
+			// is coerce:"ignore") does not break it. Counted only; conf/C17.json puts a floor on the accepted compliant
+			// types, so that a registry that refuses everything makes the run INCONCLUSIVE instead of green.
+			res.Label("reg:compliant-type-refused")
+			vprop.Count("reg_compliant_calls_refused", 1)
+		case !refuse:
+			res.Label("reg:compliant-type-accepted")
+			vprop.Count("reg_compliant_calls_accepted", 1)
 		case refuse && reg.Plugin(c.name) != nil:
 			// "refuses to register": an error return with the plugin in the registry all the same is no refusal
 			// (the name of a refused plugin is never registered by another call of the case)
